@@ -8,6 +8,7 @@ operation is done on the normal form (dict monomial -> Fraction); comparisons gi
 from __future__ import annotations
 
 import itertools
+import os
 import math
 import time
 from fractions import Fraction as F
@@ -670,6 +671,7 @@ class Engine:
         self.decisions = []
         self.dkeys = []
         self.facts = {}
+        self.soft = []  # preferences for the validation model only (never part of a verification condition)
         self.aux = {}
         self.fresh = 0
         self.model = None
@@ -701,10 +703,62 @@ class Engine:
     def interior_model(self):
         """A model of the path condition in which every non-strict order fact holds strictly whenever the path allows it
         (used for the float64 validation run: a tie exactly on a branch boundary is where float rounding flips a branch)."""
-        strict = []
+        strict, margin = [], []
+        mu = z3.RealVal("1/1000000")
         for key, mask in self.facts.items():
+            t = to_z3(dict(key))
             if mask in (3, 6):
-                strict.append(to_z3(dict(key)) != 0)
+                strict.append(t != 0)
+            # (a margin keeps the strictness through the conversion of the model to doubles)
+            if mask in (1, 3):
+                margin.append(t <= -mu)
+            elif mask in (4, 6):
+                margin.append(t >= mu)
+        margin = margin + list(self.soft)
+        if margin:
+            # all margins at once; where the path itself forces an equality (x <= k and x >= k) the offending margins are found
+            # through unsat cores and dropped, the others are kept
+            t0 = time.time()
+            self.solver.push()
+            try:
+                ps = []
+                for i, c in enumerate(margin):
+                    pb = z3.Bool("__margin%d" % i)
+                    self.solver.add(z3.Implies(pb, c))
+                    ps.append(pb)
+                active = list(ps)
+                model = None
+                for _ in range(6):
+                    self.queries += 1
+                    r = self.solver.check(*active)
+                    if r == z3.sat:
+                        model = self.solver.model()
+                        break
+                    if r != z3.unsat:
+                        break
+                    core = {str(c) for c in self.solver.unsat_core()}
+                    if not core:
+                        break
+                    active = [pb for pb in active if str(pb) not in core]
+                    if not active:
+                        break
+                if model is not None and len(active) < len(ps):
+                    # cores are not minimal: put the dropped margins back one at a time where the path allows it
+                    names = {str(a) for a in active}
+                    for pb in ps:
+                        if str(pb) in names:
+                            continue
+                        self.queries += 1
+                        if self.solver.check(*(active + [pb])) == z3.sat:
+                            active.append(pb)
+                            names.add(str(pb))
+                            model = self.solver.model()
+            finally:
+                self.solver.pop()
+                self.solver_s += time.time() - t0
+            if model is not None:
+                n_hard = len(ps) - len(self.soft)
+                return model, all(str(pb) in {str(a) for a in active} for pb in ps[:n_hard])
         if not strict:
             return self.get_model(), True
         r = self._check(*strict)
